@@ -384,6 +384,81 @@ def check_hdl_valued(_):
     return None
 
 
+_CROSS = r'''
+import sys, importlib, json
+sys.path.insert(0, sys.argv[1])
+order = sys.argv[2]
+import hdl21 as h
+from hdl21.qualname import qualname
+from typing import FrozenSet, Any
+mods = [importlib.import_module("c09x_" + c) for c in order]
+out = {}
+for c in sorted(order):
+    m = sys.modules["c09x_" + c]
+    out["series-called-from-" + c] = qualname(m.STACK)
+    out["mosstack-called-from-" + c] = qualname(m.MSTACK)
+
+@h.paramclass
+class SP:
+    tags = h.Param(dtype=Any, desc="tags", default=None)
+
+@h.generator
+def Tagged(p: SP) -> h.Module:
+    m = h.Module()
+    m.a = h.Port()
+    return m
+vals = {"strings": frozenset({"alpha", "beta", "gamma", "delta", "epsilon"}),
+        "ints": frozenset({3, 1, 2 ** 40, -7}),
+        "sets-of-strings": frozenset({frozenset({"a", "b"}), frozenset({"c"}), frozenset({"d", "e", "f"}), frozenset({"g"}), frozenset()}),
+        "tuples": frozenset({("x", 1), ("y", 2), ("z", 3), ("w", 4)}),
+        "mixed": frozenset({"one", 2, 3.5, ("four", 4)}),
+        "nested-in-tuple": (frozenset({"p", "q", "r", "s"}), frozenset({frozenset({"t"}), frozenset({"u", "v"}), frozenset({"w", "x", "y"})}))}
+for k, v in vals.items():
+    out["set-valued/" + k] = Tagged(tags=v).name
+print("NAMES" + json.dumps(out, sort_keys=True))
+'''
+
+
+def check_cross_process_names(_):
+    """names that must be the same in every process and for every call order: set-valued parameters (sets of strings,
+    of numbers, of sets, of tuples, mixed), and the modules built by the library's own generators when the first call
+    comes from one user file or another"""
+    import json
+    import os
+    import shutil
+    import subprocess
+    import sys
+    import tempfile
+    from pyvc import loader
+    w = {"case": "cross-process-names"}
+    d = tempfile.mkdtemp(prefix="c09x")
+    try:
+        for c in "ab":
+            with open(f"{d}/c09x_{c}.py", "w") as f:
+                f.write("import hdl21 as h\nfrom hdl21.generators import Series, MosStack\n"
+                        "STACK = Series(unit=h.R(r=1), conns=('p', 'n'), nser=2)\nMSTACK = MosStack(nser=3)\n")
+        with open(f"{d}/run.py", "w") as f:
+            f.write(_CROSS)
+        outs = {}
+        for seed, order in (("1", "ab"), ("2", "ab"), ("3", "ba"), ("4", "ba")):
+            env = dict(os.environ, PYTHONHASHSEED=seed, PYTHONPATH=loader.REPO)
+            r = subprocess.run([sys.executable, f"{d}/run.py", d, order], capture_output=True, text=True, env=env, timeout=300)
+            line = [l for l in r.stdout.splitlines() if l.startswith("NAMES")]
+            if not line:
+                return ("names.cross-process.harness", f"worker failed: {r.stderr[-300:]}", w)
+            outs[(seed, order)] = json.loads(line[0][5:])
+    finally:
+        shutil.rmtree(d, ignore_errors=True)
+    ref_key = ("1", "ab")
+    for key, got in outs.items():
+        for name, val in got.items():
+            if val != outs[ref_key][name]:
+                return ("names.cross-process", f"{name}: {outs[ref_key][name]!r} with PYTHONHASHSEED=1 / import order ab, "
+                                               f"{val!r} with PYTHONHASHSEED={key[0]} / import order {key[1]}", w)
+    check_cross_process_names.count = sum(len(v) for v in outs.values())
+    return None
+
+
 def check_string_pairs(alphabet):
     """names of a two-string parameter class over every pair of strings made of up to three pieces of `alphabet`: two
     different pairs never share a name (pieces: a letter, the ` b=` separator shape, a white-space / line-break
@@ -597,6 +672,12 @@ def run(ctx):
                     rule="external modules of one name in two domains (and calls of them), generators and modules of one "
                          "name written in two Python modules, as parameter values of one generator: distinct modules, "
                          "distinct names, and the design holding both exports", bound="4 pairs", key_of=repr)
+    ctx.run_bounded("cross-process-names", ["all"], check_cross_process_names,
+                    rule="4 processes (PYTHONHASHSEED 1-4, two import orders of two user files): the names of modules generated "
+                         "for set-valued parameters (strings, numbers, sets of sets, tuples, mixed) and of the modules the "
+                         "library's own Series / MosStack build for equal calls coming first from one file or the other",
+                    bound="4 processes x 10 names", key_of=repr)
+    ctx.bounded[-1]["evaluations"] = getattr(check_cross_process_names, "count", 0)
     ctx.run_bounded("memo-after-failure", ["alone", "in-parent", "in-generated-parent"], check_memo_after_failure,
                     rule="a generated module whose elaboration fails (alone, inside a parent, inside a generated parent; "
                          "elaborate and to_proto): the same call returns the same module afterwards, the body runs once",
@@ -620,6 +701,8 @@ def replay(payload):
     inp = payload.get("input") or (payload.get("replay") or {}).get("input") or {}
     if inp.get("case") in ("handed-on", "self-handed-on", "chain", "used-before-returned"):
         r = check_handed_on(inp["case"])
+    elif inp.get("case") == "cross-process-names":
+        r = check_cross_process_names(0)
     elif inp.get("case") == "memo-after-failure":
         r = check_memo_after_failure(inp["kind"])
     elif inp.get("case") == "hdl-valued":
